@@ -978,6 +978,8 @@ def null_model_dir_sign(W, bin_swaps=5, wei_freq=.1, seed=None):
         else:
             wsize = np.size(Wv)
             wei_period = np.round(1 / wei_freq).astype(int)  # convert frequency to period
+            if not 1 <= wei_period <= wsize:  # also catches the overflow of a huge period
+                wei_period = max(wsize, 1)
             lq = np.arange(wsize, 0, -wei_period, dtype=int)
             for m in lq:  # iteratively explore at this period
                 # get indices of Lij that sort P
@@ -1104,6 +1106,8 @@ def null_model_und_sign(W, bin_swaps=5, wei_freq=.1, seed=None):
         else:
             wsize = np.size(Wv)
             wei_period = np.round(1 / wei_freq).astype(int)  # convert frequency to period
+            if not 1 <= wei_period <= wsize:  # also catches the overflow of a huge period
+                wei_period = max(wsize, 1)
             lq = np.arange(wsize, 0, -wei_period, dtype=int)
             for m in lq:  # iteratively explore at this period
                 # get indices of Lij that sort P
